@@ -107,6 +107,11 @@ Seeds0 == {
   (* one class (renamed required property) reached twice: de-duplicated to one definition, whose *)
   (* shared dictionary is visited twice when the serialized document is parsed again            *)
   Sch([type |-> "object", title |-> "T", properties |-> << <<"a", Acc>>, <<"b", Acc>> >>]),
+  (* two different classes with one title, the second (renamed by de-duplication) declared twice *)
+  Sch([type |-> "object", title |-> "T",
+       properties |-> << <<"a", Acc>>,
+                         <<"b", Sch([type |-> "object", title |-> "Acc", properties |-> << <<"b", Ty("integer")>> >>])>>,
+                         <<"c", Sch([type |-> "object", title |-> "Acc", properties |-> << <<"b", Ty("integer")>> >>])>> >>]),
   (* an object-valued default next to a composition keyword (every dictionary is labelled) *)
   Sch([anyOf |-> << Ty("string"), Ty("null") >>,
        default |-> O(<< <<"a", O(<< <<"b", JInt(1)>> >>)>> >>)]),
